@@ -47,6 +47,7 @@ func c16(c *Ctx) {
 	r.Rule("R16.3", "every return of a builder function with (Link, …, error) results has a nil link, or a nil error, or is dominated by err == nil for the error it returns, or forwards the results of a repository callee that itself satisfies the rule (forwarding LinkSystem.Store raw is a violation: it returns (link, commitErr))")
 	r.Rule("R16.5", "builder calls share no mutable state: no package-level variable of the builder packages is written outside package initialisation (a link remembered from an earlier build was committed to that build's store, not this one)")
 	r.Rule("R16.6", "blocks reach the caller's storage only through (*LinkSystem).Store: a storage write opener (or committer) is called in the builder packages only inside a function that is itself a write opener (the byte-counting wrapper that forwards to the original); a raw write/commit elsewhere bypasses the encode → write → commit order by which a parent is committed after its children")
+	r.Rule("R16.7", "codec agreement at every store site of the builder packages: a node made by basicnode.NewBytes is stored under a link prototype whose codec is raw (0x55), a node built with the dag-pb builder under one whose codec is dag-pb (0x70) — the wrong prototype makes the encoder reject the node (a valid tree is refused) or yields a block whose CID lies about its content")
 	r.Rule("R16.4", "no LinkSystem.ComputeLink, no go statement, no deferred call that reaches a store in the builder packages; (*LinkSystem).Store calls the storage committer after the encoder (dependency assertion)")
 
 	bp := core.BuilderPkgs
@@ -182,6 +183,7 @@ func c16(c *Ctx) {
 	c.checkNoBuilderGlobals("R16.5")
 
 	c.checkNoRawWrites()
+	c.checkStoreCodec("R16.7")
 	// ---- R16.4
 	nbad := 0
 	nfun := 0
@@ -704,4 +706,150 @@ func (c *Ctx) checkNoRawWrites() {
 	if nbad == 0 {
 		r.OK("R16.6", "data/builder/*/no-raw-write", "-", fmt.Sprintf("%d direct opener/committer call(s) in the builder packages, none outside a forwarding write opener", n))
 	}
+}
+
+// protoCodec reads the Codec constant of a package-level LinkPrototype passed (boxed or not) as v.
+func (c *Ctx) protoCodec(v ssa.Value) (int64, string, bool) {
+	if mi, ok := v.(*ssa.MakeInterface); ok {
+		v = mi.X
+	}
+	u, ok := v.(*ssa.UnOp)
+	if !ok {
+		return 0, "", false
+	}
+	gl, ok := u.X.(*ssa.Global)
+	if !ok || gl.Pkg == nil {
+		return 0, "", false
+	}
+	initFn := gl.Pkg.Func("init")
+	if initFn == nil {
+		return 0, "", false
+	}
+	for _, b := range initFn.Blocks {
+		for _, ins := range b.Instrs {
+			st, ok := ins.(*ssa.Store)
+			if !ok || core.RootOfAddr(st.Addr) != ssa.Value(gl) {
+				continue
+			}
+			if _, fv, ok := core.FieldAddrOf(st.Addr); ok && fv.Name() == "Codec" {
+				if k, ok := core.ConstInt(st.Val); ok {
+					return k, gl.Name(), true
+				}
+			}
+		}
+	}
+	return 0, "", false
+}
+
+// nodeFlavour classifies a node value by the constructor it comes from: "bytes" (basicnode.NewBytes), "dagpb" (Build() of
+// a dag-pb node builder, directly or as the result of a repository function all of whose returns are such), or "".
+func (c *Ctx) nodeFlavour(v ssa.Value, depth int) string {
+	if v == nil || depth > 4 {
+		return ""
+	}
+	switch x := v.(type) {
+	case *ssa.MakeInterface:
+		return c.nodeFlavour(x.X, depth+1)
+	case *ssa.ChangeInterface:
+		return c.nodeFlavour(x.X, depth+1)
+	case *ssa.Extract:
+		if call, ok := x.Tuple.(*ssa.Call); ok {
+			return c.callFlavour(call, x.Index, depth+1)
+		}
+	case *ssa.Call:
+		return c.callFlavour(x, 0, depth+1)
+	case *ssa.Phi:
+		fl := ""
+		for _, e := range x.Edges {
+			if core.IsNilConst(e) {
+				continue
+			}
+			f := c.nodeFlavour(e, depth+1)
+			if f == "" || (fl != "" && f != fl) {
+				return ""
+			}
+			fl = f
+		}
+		return fl
+	}
+	return ""
+}
+
+func (c *Ctx) callFlavour(call *ssa.Call, idx int, depth int) string {
+	cc := call.Common()
+	if f := cc.StaticCallee(); f != nil {
+		if f.Name() == "NewBytes" && f.Pkg != nil && (strings.HasSuffix(f.Pkg.Pkg.Path(), "node/basic") || strings.HasSuffix(f.Pkg.Pkg.Path(), "node/basicnode")) {
+			return "bytes"
+		}
+		if _, isRepo := c.P.PkgOf(f); isRepo && len(f.Blocks) > 0 {
+			fl := ""
+			for _, ret := range core.Returns(f) {
+				rr := core.ResolvedResults(ret)
+				if idx >= len(rr) || core.IsNilConst(rr[idx]) {
+					continue
+				}
+				g := c.nodeFlavour(rr[idx], depth+1)
+				if g == "" || (fl != "" && g != fl) {
+					return ""
+				}
+				fl = g
+			}
+			return fl
+		}
+	}
+	name, recv := methodCall(call)
+	if name == "Build" && recv != nil {
+		// the builder: X.NewBuilder() with X a dag-pb type slab member / prototype
+		if bc, ok := recv.(*ssa.Call); ok {
+			if n2, r2 := methodCall(bc); n2 == "NewBuilder" && r2 != nil && strings.Contains(types.TypeString(r2.Type(), nil), "go-codec-dagpb") {
+				return "dagpb"
+			}
+		}
+	}
+	return ""
+}
+
+// checkStoreCodec implements R16.7 / R18.6.
+func (c *Ctx) checkStoreCodec(rule string) {
+	r := c.R
+	n := 0
+	for _, fn := range c.G.Funcs() {
+		rel, ok := c.P.PkgOf(fn)
+		if !ok || !core.BuilderPkgs[rel] {
+			continue
+		}
+		ord := 0
+		for _, ci := range core.CallsIn(fn) {
+			call, ok := ci.(*ssa.Call)
+			if !ok {
+				continue
+			}
+			var codec int64
+			var pname string
+			found := false
+			for _, a := range call.Call.Args {
+				if k, nm, ok := c.protoCodec(a); ok {
+					codec, pname, found = k, nm, true
+				}
+			}
+			if !found {
+				continue
+			}
+			flavour := ""
+			for _, a := range call.Call.Args {
+				if f := c.nodeFlavour(a, 0); f != "" {
+					flavour = f
+				}
+			}
+			if flavour == "" {
+				continue
+			}
+			n++
+			ord++
+			key := fmt.Sprintf("%s/store-codec#%d", core.FuncName(fn), ord)
+			want := map[string]int64{"bytes": 0x55, "dagpb": 0x70}[flavour]
+			r.Check(codec == want, rule, key, c.P.Pos(call.Pos()), fmt.Sprintf("a %s node is stored under %s (codec %#x)", flavour, pname, codec), fmt.Sprintf("a %s node is stored under %s, whose codec is %#x, not %#x: the encoder rejects the node or the CID misstates the block's format", flavour, pname, codec, want))
+		}
+	}
+	r.Floor(rule, n, 3)
 }
